@@ -370,6 +370,12 @@ def list_builds(fn: ast.AST, name: str) -> List[ListBuild]:
         if isinstance(st, ast.Assign) and any(norm(t) == name for t in st.targets) and isinstance(st.value, ast.ListComp):
             c = st.value
             out.append(ListBuild(name, c.elt, list(c.generators), [i for g in c.generators for i in g.ifs], c))
+        elif isinstance(st, ast.Call) and isinstance(st.func, ast.Attribute) and st.func.attr == "extend" and norm(st.func.value) == name and st.args \
+                and isinstance(st.args[0], (ast.GeneratorExp, ast.ListComp)):
+            c = st.args[0]
+            outer = list(reversed(enclosing_loops(st)))
+            conds = [a.test for a in ancestors(st) if isinstance(a, ast.If) and outer and in_body_of(a, outer[0])]
+            out.append(ListBuild(name, c.elt, outer + list(c.generators), conds + [i for g in c.generators for i in g.ifs], st))
         elif isinstance(st, ast.Call) and isinstance(st.func, ast.Attribute) and st.func.attr == "append" and norm(st.func.value) == name and st.args:
             loops = list(reversed(enclosing_loops(st)))
             conds = [a.test for a in ancestors(st) if isinstance(a, ast.If) and (not loops or in_body_of(a, loops[0]) or a in loops)]
